@@ -2477,6 +2477,13 @@ func (pc *PeerConnection) CreateDataChannel(label string, options *DataChannelIn
 	}
 
 	pc.sctpTransport.lock.Lock()
+	// close() marks the connection closed before it takes this lock to close
+	// the channels: a channel added after that would stay open forever.
+	if pc.isClosed.Load() {
+		pc.sctpTransport.lock.Unlock()
+
+		return nil, &rtcerr.InvalidStateError{Err: ErrConnectionClosed}
+	}
 	pc.sctpTransport.dataChannels = append(pc.sctpTransport.dataChannels, dataChannel)
 	if dataChannel.ID() != nil {
 		pc.sctpTransport.dataChannelIDsUsed[*dataChannel.ID()] = struct{}{}
